@@ -99,6 +99,11 @@ def gen_case(seed: int, tier: str, index: int) -> Dict[str, Any]:
             # no bound on the number of attempts can be promised then, so only "connected implies an identical block" is judged
             rules = []
             cfg["sim_reliability"] = rng.choice([0.95, 0.98, 0.99])
+        if not cfg.get("sim_reliability") and rng.random() < 0.15:
+            # peer data: the spa reports a config or log version this library has no definition for -- the handshake cannot complete,
+            # but the failing handler must not take the engine down
+            rules = []
+            cfg["unknown_version"] = rng.choice(["config", "log"])
         cfg["net"]["rules"] = rules
         cfg.update(T=T, lost_attempts=total, snapshot=snapshot_files()[rng.randrange(len(snapshot_files()))].split("/")[-1])
     plan.sort(key=lambda o: (o.get("t", 0), o.get("caller", 0), o.get("j", 0))) if sub == "sends" else None
@@ -433,6 +438,9 @@ def sub_handshake(world: WorldT) -> None:
     unreliable = cfg.get("sim_reliability")
     if unreliable:
         sim._reliability = unreliable
+    if cfg.get("unknown_version"):
+        setattr(sim.snapshot, "_config_version" if cfg["unknown_version"] == "config" else "_log_version", 98)
+        return unknown_version_handshake(world, sim)
     desc = GeckoSpaDescriptor(b"IOSverif-T", b"SPA01:02:03:04:05:06", "Udp Test Spa", (SPA_IP, SPA_PORT))
     spa = GeckoSpa(desc)
     t0 = world.now()
@@ -480,6 +488,53 @@ def sub_handshake(world: WorldT) -> None:
     res.sample = {"sub": "handshake", "T": T, "lost_attempts": lost, "connected_after": round(world.now() - t0, 2), "dropped": fired}
 
 
+def unknown_version_handshake(world: WorldT, sim) -> None:
+    """The spa names a config/log version without a definition module: the config step's handler raises.  The engine must go on:
+    queued sends still leave, received datagrams are still dispatched, no engine thread ends with an exception."""
+    from geckolib.spa import GeckoSpa
+    from geckolib.spa_descriptor import GeckoSpaDescriptor
+
+    _, PrefixHandler = handler_classes()
+    res = world.result
+    cfg = world.cfg
+    record: List[Any] = []
+    desc = GeckoSpaDescriptor(b"IOSverif-T", b"SPA01:02:03:04:05:06", "Udp Test Spa", (SPA_IP, SPA_PORT))
+    spa = GeckoSpa(desc)
+    spa.start_connect()
+    world.sleep(6.0)
+    ctx = f"spa reports an unknown {cfg['unknown_version']} version (98), snapshot={cfg['snapshot']}"
+    connected = False
+    try:
+        connected = bool(spa._is_connected)
+    except Exception:
+        pass
+    if connected:
+        world.violate(PROP, "handshake-block-mismatch", f"{ctx}: the client reports connected", sig="connected-with-unknown-version")
+    # the engine is still serving: a send leaves, a datagram is dispatched
+    peer = Sink(world, ("10.0.0.71", 7001))
+    probe = PrefixHandler(1, [b"PROBE-REPLY"], "", record, send_bytes=b"PROBE-1")
+    spa.add_receive_handler(probe)
+    mark = len(world.net.history)
+    spa.queue_send(probe, peer.addr)
+    world.sleep(0.5)
+    left = [r for r in world.net.history[mark:] if r.dst == peer.addr and r.data == b"PROBE-1"]
+    local = spa._socket.local
+    world.net.inject(peer.addr, local, b"PROBE-REPLY-1", delay=0.001, who="probe")
+    world.sleep(0.5)
+    got = [e for e in record if e[0] == "handle" and e[1] == 1]
+    errs = [e for e in world.sched.thread_errors]
+    if errs or not left or not got:
+        world.violate(PROP, "engine-stopped", f"{ctx}: after the failed config step the engine no longer serves: probe send left={bool(left)}, "
+                      f"probe reply dispatched={bool(got)}, thread errors={[repr(e)[:120] for e in errs[:2]]}", sig="engine-stopped:after-failed-handshake-step")
+    res.probe("handshake_with_unknown_version")
+    spa.complete()
+    sim._socket.close()
+    res.nontrivial = True
+    res.faultfree = True
+    res.shape = "unknown-version:" + cfg["unknown_version"]
+    res.sample = {"sub": "handshake", "unknown_version": cfg["unknown_version"], "engine_alive": bool(left and got)}
+
+
 def run_case(case: Dict[str, Any], replay: Optional[Dict[str, Any]] = None, keep_log: bool = False) -> RunResult:
     world = WorldT(case, replay, keep_log=keep_log)
     return world.run(scenario)
@@ -506,7 +561,7 @@ ASSUMPTIONS = [
     "registration changes are made between datagrams, so 'the first registered handler that accepts it' is unambiguous",
     "the ping thread may die of the 45 s connection timeout in long loss patterns; the statement is about the handshake",
 ]
-PROBES = ["backlog_longer_than_timeout", "unreliable_simulator_handshake_completed", "incoming_traffic_while_sending", "multi_caller", "preempted_inside_udp_socket", "handler_removed_while_running", "no_handler_accepts", "handler_raised_in_handle",
+PROBES = ["backlog_longer_than_timeout", "handshake_with_unknown_version", "unreliable_simulator_handshake_completed", "incoming_traffic_while_sending", "multi_caller", "preempted_inside_udp_socket", "handler_removed_while_running", "no_handler_accepts", "handler_raised_in_handle",
           "handler_raised_in_handled", "unanswered", "answered", "answer_after_removal", "handshake_with_losses", "segment_lost_during_handshake"]
 N_QUICK = 4800
 
